@@ -97,6 +97,23 @@ def observe(tree: Any) -> Dict[str, Any]:
     return canon_table(tree, tb)
 
 
+def _path_by_value(tree: Any, value: Any) -> Optional[Tuple[int, ...]]:
+    """Fallback when a cell's value is not (by identity) a node of the tree: the path of the unique node of the
+    same class that is equal to it (a value-equal copy is accepted as that node), else None."""
+    hits: List[Tuple[int, ...]] = []
+    stack: List[Tuple[Any, Tuple[int, ...]]] = [(tree, ())]
+    while stack:
+        node, p = stack.pop()
+        try:
+            if type(node) is type(value) and node == value:
+                hits.append(p)
+        except Exception:  # noqa
+            pass
+        for i, k in enumerate(G.children(node)):
+            stack.append((k, p + (i,)))
+    return hits[0] if len(hits) == 1 else None
+
+
 def canon_table(tree: Any, tb: Any) -> Dict[str, Any]:
     from recipe_grid.renderer import table as T
     paths = G.paths_by_identity(tree)
@@ -108,6 +125,8 @@ def canon_table(tree: Any, tb: Any) -> Dict[str, Any]:
             if isinstance(x, T.Cell):
                 origin_of.setdefault(id(x), (r, c))
                 p = paths.get(id(x.value))
+                if p is None:
+                    p = _path_by_value(tree, x.value)
                 cells.append({
                     "r": r, "c": c, "rows": x.rows, "cols": x.columns, "kind": kind_of(x.value),
                     "path": list(p) if p is not None else [SENTINEL],
@@ -331,6 +350,108 @@ def make_case(tree: Any) -> Case:
                 violation=oracle(tree, obs), nontrivial=("error" in obs or len(obs["cells"]) > 1), tags=tg)
 
 
+# ---------------------------------------------------------------- sequences converted in one process
+
+class _Unsupported:
+    """Not a recipe node: recipe_tree_to_table raises NotImplementedError for it."""
+
+
+def sequence_case(items: List[Any]) -> Case:
+    """`items`: recipe trees and/or the marker "unsupported"; all are converted here, one after the other, in
+    this process. Every tree is compared with the model and checked by the oracle as if it were converted alone:
+    the table of a tree must not depend on what was converted before (memo tables, counters, a failed conversion)."""
+    from recipe_grid.renderer.recipe_to_table import recipe_tree_to_table
+    inp: List[Any] = []
+    ins: List[str] = []
+    outs: List[str] = []
+    impl: List[Any] = []
+    violation: Optional[str] = None
+    ntrees = 0
+    for k, it in enumerate(items):
+        if isinstance(it, str):
+            inp.append({"unsupported": True})
+            try:
+                recipe_tree_to_table(_Unsupported())  # type: ignore
+                impl.append("unsupported object: no exception")
+            except Exception as e:  # noqa
+                impl.append("unsupported object: " + type(e).__name__)
+            continue
+        inp.append({"tree": ser.node_json(it)})
+        obs = observe(it)
+        ins.append(G.ltree_term(G.skeleton_of(it)))
+        outs.append(coq_out(obs))
+        impl.append(obs if "error" in obs else {"rows": obs["rows"], "cols": obs["cols"], "cells": len(obs["cells"])})
+        ntrees += 1
+        v = oracle(it, obs)
+        if v and violation is None:
+            violation = (f"tree {k + 1} of {len(items)} converted one after the other in one process "
+                         f"(alone it may be drawn correctly): " + v)
+    return Case(input={"seq": inp}, coq_in="[" + "; ".join(ins) + "]" if ins else "(@nil ltree)",
+                coq_out="[" + "; ".join(outs) + "]" if outs else "(@nil oresult)", impl=impl[:6], violation=violation,
+                nontrivial=ntrees > 1, tags=["sequence"])
+
+
+def sequences(tier: str, rng: random.Random) -> List[List[Any]]:
+    import recipe_grid.recipe as RR
+    out: List[List[Any]] = []
+    fails: List[List[Any]] = []
+    n = 60 if tier == "quick" else 600
+
+    def step_tree() -> Any:
+        while True:
+            sk = G.random_skeleton(rng, rng.randrange(2, 14), max_depth=rng.choice((3, 5, 8)),
+                                   p_sub=rng.choice((0.0, 0.2, 0.4)), p_ref=0.2, p_multi=0.0)
+            if sk[0] == "S":
+                return G.decorate(rng, sk)
+
+    def any_tree() -> Any:
+        sk = G.random_skeleton(rng, rng.randrange(1, 12), max_depth=rng.choice((2, 4, 8)),
+                               p_sub=rng.choice((0.0, 0.3)), p_ref=0.3, p_multi=rng.choice((0.0, 0.3)))
+        return G.decorate(rng, sk)
+
+    def copy(t: Any) -> Any:
+        return ser.node_unjson(ser.node_json(t))   # value-equal, different objects
+
+    def wraps(t: Any) -> List[Any]:
+        x = G.decorate(rng, G.I)
+        y = G.decorate(rng, G.S(G.I, G.R))
+        return [
+            RR.Step(G.rand_svs(rng), (t,)),
+            RR.Step(G.rand_svs(rng), (x, t)),
+            RR.Step(G.rand_svs(rng), (t, y)),
+            RR.Step(G.rand_svs(rng), (RR.Step(G.rand_svs(rng), (y, t)), x)),
+            RR.SubRecipe(t, (G.rand_svs(rng),), True),
+            RR.SubRecipe(t, (G.rand_svs(rng),), False),
+            RR.SubRecipe(t, (G.rand_svs(rng), G.rand_svs(rng)), True),
+            RR.Step(G.rand_svs(rng), (RR.SubRecipe(t, (G.rand_svs(rng),), rng.random() < 0.5), x)),
+        ]
+
+    # (2) a failing conversion first, ordinary trees afterwards (listed first: see suites())
+    for i in range(max(8, n // 4)):
+        bad: Any = "unsupported" if i % 2 else RR.Step(G.rand_svs(rng), ())
+        if i % 5 == 4:
+            bad = RR.Step(G.rand_svs(rng), (G.decorate(rng, G.I), RR.Step(G.rand_svs(rng), ())))
+        after = [step_tree(), G.decorate(rng, rng.choice((G.I, G.R))), any_tree()]
+        rng.shuffle(after)
+        fails.append([bad] + after)
+    # (1) the same step as a root and as a non-root node, in both orders; the same tree twice
+    for i in range(n):
+        t = step_tree()
+        for w in rng.sample(wraps(t), 3):
+            out.append([t, w] if rng.random() < 0.5 else [w, t])
+        w = rng.choice(wraps(t))
+        out.append([t, w, t])
+        out.append([t, t])
+        t2 = copy(t)
+        out.append([t, rng.choice(wraps(t2))])
+        out.append([rng.choice(wraps(t)), t2])
+    return fails + out
+
+
+def sequence_replay(inp: Any) -> Case:
+    return sequence_case(["unsupported" if "unsupported" in it else ser.node_unjson(it["tree"]) for it in inp["seq"]])
+
+
 def skeleton_case(tree: Any) -> Case:
     skel = G.skeleton_of(tree)
     return Case(input=ser.node_json(tree), coq_in=ser.node(tree), coq_out=G.ltree_term(skel),
@@ -338,6 +459,8 @@ def skeleton_case(tree: Any) -> Case:
 
 
 def replay(inp: Any) -> Case:
+    if isinstance(inp, dict) and "seq" in inp:
+        return sequence_replay(inp)
     return make_case(ser.node_unjson(inp))
 
 
@@ -404,8 +527,10 @@ def suites(tier: str, seed: int) -> List[Suite]:
                 out_ty="unit", check="check_spec",
                 show="(fun t => match recipe_tree_to_table t with Ok tb => Some (table_eqb tb (spec_table t)) | Err _ => None end)",
                 shard=400)
+    seq = Suite(name="sequence", imports=IMPORTS, in_ty="list ltree", out_ty="list oresult",
+                check="check_layout_seq", show="(List.map show_layout)", shard=120)
     if tier == "replay":
-        return [lay, ske, spe]
+        return [lay, ske, spe, seq]
     rng = random.Random(seed * 7919 + 2)
     seen = set()
     trees = []
@@ -438,4 +563,9 @@ def suites(tier: str, seed: int) -> List[Suite]:
                 continue
         spe.cases.append(Case(input=c.input, coq_in=c.coq_in, coq_out="tt", impl=None, violation=None,
                               nontrivial=c.nontrivial, tags=["spec"]))
-    return [lay, ske, spe]
+    # state carried between conversions: sequences converted in this one process, generated LAST (after every
+    # single-tree case above, so that a corrupted process state cannot be blamed on a single tree whose replay in a
+    # fresh process would not reproduce); sequences that start with a failing conversion come first among them
+    for items in sequences(tier, rng):
+        seq.cases.append(sequence_case(items))
+    return [lay, ske, spe, seq]
